@@ -746,6 +746,8 @@ class LineWorld:
         if d.get('blocked'):
             o.block_input = True
         if isinstance(o, PartHandler):
+            if d.get('pre_offset'):
+                o.offset_next_cycle_time(d['pre_offset'])     # requested right after construction (before the first run)
             if d.get('cycles') or d.get('offsets'):
                 o.add_receive_part_callback(CycleByOrdinal(d.get('cycles'), d.get('offsets')))
             o.add_receive_part_callback(self.hub.on_receive)
@@ -801,6 +803,12 @@ class LineWorld:
             o = HCms(self.maintainer, name, d.get('value', 0), hub=self.hub, devs=self.dev)
             for sname in d.get('sensors', []):          # a name listed twice = add_sensor called twice
                 o.add_sensor(self.dev[sname])
+            # further on-sense callbacks registered with a sensor AFTER the CMS subscribed to it: registration order is
+            # callbacks made with the sensor, the CMS, then these
+            for sname, m in sorted(d.get('late_callbacks', {}).items()):
+                base = next(x for x in self.spec['devices'] + list(self.spec.get('late', [])) if x['name'] == sname).get('callbacks', 1)
+                for j in range(m):
+                    self.dev[sname].add_on_sense_callback(SenseCallback(self.hub, base + j, sname))
             return o
         raise HarnessError(f'unknown auxiliary kind {k}')
 
@@ -1202,6 +1210,9 @@ class LineWorld:
             hub.tlog.append(('cleardata',))
         elif k == 'abort':
             raise AbortRun('scripted failure of a user callback')
+        elif k == 'sense':
+            self.dev[op[1]].sense()          # a measurement taken by hand through the public method
+            hub.tlog.append(('manual_sense', op[1]))
         elif k == 'bump':
             o = self.dev[op[1]]
             o.x[0] += 1           # in place: a sensor that stored a reference instead of a copy is exposed
